@@ -732,8 +732,8 @@ Print Assumptions api_create_utf8.
 (* ================================================================================================ *)
 From JP Require Import ImplV4 V4MergeFacts V4ApplySim V4OutputFacts.
 
-Lemma render4_doc_u ks obj :
-  render4 (NDoc ks obj) =
+Lemma render4_doc_u obj :
+  render4 (NDoc [] obj) =
   TObj (map (fun kv => (quote true (fst kv), snd kv)) (V4MergeFacts.sort4 (map (fun kv => (fst kv, render4 (snd kv))) obj))).
 Proof. reflexivity. Qed.
 
@@ -742,7 +742,8 @@ Proof.
   induction n as [|t|keys obj IH|ns IH] using node_rect'; intro N.
   - exact I.
   - exact N.
-  - apply (nall_doc tutf8) in N. rewrite render4_doc_u. apply tutf8_obj. rewrite Forall_map. cbn [fst snd].
+  - destruct keys as [|k0 keys]; [|exact I].
+    apply (nall_doc tutf8) in N. rewrite render4_doc_u. apply tutf8_obj. rewrite Forall_map. cbn [fst snd].
     apply Forall_forall. intros kv Hin. apply In_sort4 in Hin. apply in_map_iff in Hin as [kv0 [<- Hin0]]. cbn [fst snd].
     rewrite Forall_forall in IH, N. split; [apply utf8_quote | apply (IH _ Hin0); apply (N _ Hin0)].
   - apply (nall_ary tutf8) in N. cbn [render4]. apply tutf8_arr. rewrite Forall_map. rewrite Forall_forall in *.
@@ -799,7 +800,7 @@ Section RawInv4.
     - destruct t; try discriminate; inversion H; subst.
       + apply call4g_ary. apply nall_children. exact N.
       + apply call4g_doc. apply nall_obj_of. exact N.
-    - inversion H; subst. apply call4g_doc. apply (nall_doc P keys). exact N.
+    - destruct keys as [|k0 keys]; inversion H; subst; [apply call4g_doc; apply (nall_doc P []); exact N | apply call4g_nil].
     - inversion H; subst. apply call4g_ary. apply (nall_ary P). exact N.
   Qed.
 
@@ -909,13 +910,16 @@ Section RawInv4.
   Lemma opv4_allg op : op_all P op -> nP (opv4 op).
   Proof.
     intro A. unfold opv4, op_value4. destruct (aget (B "value") op) as [[t|]|] eqn:E; try exact I.
-    apply (nall_raw P). apply A. exact E.
+    - apply (nall_raw P). apply A. exact E.
+    - apply (nall_raw P). exact (P_copy4 NNil I).
   Qed.
 
   Lemma nall_deep_copy4 g v : nP v -> nP (fst (deep_copy4 g v)).
   Proof.
-    intro N. destruct v as [|t|ks obj|ns]; cbn [deep_copy4 fst]; try exact I;
-      apply (nall_raw P); apply P_copy4; exact N.
+    intro N. destruct (deep_copy4_cases g v) as [E|[E|E]]; rewrite E.
+    - exact I.
+    - apply (nall_doc P [B "null"]). constructor.
+    - apply (nall_raw P); apply P_copy4; exact N.
   Qed.
 
   Theorem step4_allg g st op st' : sall4 st -> op_all P op -> step4 g st op = Ok st' -> sall4 st'.
